@@ -29,9 +29,9 @@ ASSUMPTIONS = [
     "files are self-contained per module (C01's precondition); wrong-length UUIDs and other malformations belong to C17",
 ]
 REQUIRED_TAGS = {
-    "quick": ["positive", "fault:referent", "fault:entry", "fault:edge-source", "fault:edge-target", "fault:const-symbol",
+    "quick": ["fault:uuid-clash", "positive", "fault:referent", "fault:entry", "fault:edge-source", "fault:edge-target", "fault:const-symbol",
               "fault:addr-symbol1", "fault:addr-symbol2", "repl:missing", "repl:wrong-kind", "aux-node-leaf"],
-    "thorough": ["positive", "fault:referent", "fault:entry", "fault:edge-source", "fault:edge-target", "fault:const-symbol",
+    "thorough": ["fault:uuid-clash", "positive", "fault:referent", "fault:entry", "fault:edge-source", "fault:edge-target", "fault:const-symbol",
                  "fault:addr-symbol1", "fault:addr-symbol2", "repl:missing", "repl:wrong-kind", "aux-node-leaf"],
 }
 
